@@ -52,7 +52,7 @@ LAYOUT = dict(bin="layout", driver_cmd=["python3", "lib/null_driver.py"], case_s
 
 CONFIG = dict(
 
-    claim="Machine-checked proof over the executable models, in which every accessor returns the REGION of the borrow it hands out: after the validation gate every unchecked header accessor returns a region inside the buffer and aligned for its struct type, with sizes and alignments regenerated from src/image.rs on every run (C01_header_accessors_32/64); for any (rva | va, min_size) and any power-of-two align (the documented precondition of AlignTo; C01_alignment_test_is_mask ties the code's mask test to the divisibility test of the models) a slice returned by a file or mapped view lies inside the buffer, has at least min_size bytes and starts at an address that is a multiple of align (C01_slice, C01_read); every typed read on both paths (derva/deref, _copy/_into, _slice, _slice_f/_s, _c_str) returns a region inside the buffer, aligned for the element type, of exactly the stated size (C01_typed_reads); the dword view used by check_sum and rich_structure is aligned and inside (C01_dword_view); relocation blocks lie inside the directory (C01_reloc_blocks); the resource entry array handed out by from_raw_parts lies inside the section and is aligned (C01_resource_entries); UNWIND_INFO with its code array lies inside the slice it was read from (C01_unwind_info). The directory modules are covered accessor by accessor (Spec/SafetyDirsSpec.v, Proofs/SafetyDirsProofs.v), each borrow inside the buffer and at an address that is a multiple of the alignment of the Rust type it is cast to (gen/Layout.v): the IMAGE_EXPORT_DIRECTORY, the three By tables (static empty slice or a derva_slice region aligned for Rva / u16) and every name string (C01_exports_regions); the import descriptor array and each descriptor, dll names, the IAT / INT thunk arrays and each thunk (Va: 4 in PE32, 8 in PE32+), by-name import names, the IAT directory (C01_imports_regions); the RUNTIME_FUNCTION table and each record, function bytes, UNWIND_INFO with the UNWIND_CODE array from_raw_parts builds behind it (C01_exception_regions); the certificate with its 8 header bytes and the get_unchecked(8..) payload (C01_security_region); the IMAGE_DEBUG_DIRECTORY array and each Dir, Dir::data, the CodeView PDB20 / PDB70, IMAGE_DEBUG_MISC and PGO dword-slice casts, pdb_file_name and every PgoIter name (C01_debug_regions); IMAGE_TLS_DIRECTORY32/64, raw data, slot, callbacks (C01_tls_regions); IMAGE_LOAD_CONFIG_DIRECTORY32/64, cookie, SE handler table (C01_load_config_regions); Resources::slice / slice_ws, Directory::try_from with the entry arrays of entries() / named_entries() / id_entries() and each entry, wide names, sub-directories and data entries, DataEntry::bytes, the find.rs queries, version_info() bytes, GroupResource::new with its entry array and the icon / cursor listings, and the section itself as a borrow of a file or mapped view (C01_resources_regions, C01_resource_groups, C01_resources_in_view; C01_resource_entries kept); the u16 view of a version resource, key / value / children of every block, the VS_FIXEDFILEINFO cast - whose misaligned case is unreachable - and Language::from_slice (C01_version_info_regions); the dos stub, Rich image and record words on the dword view (C01_rich_region); the relocation directory and the 4-byte alignment of every block header IterBlocks dereferences (C01_relocs_region, C01_reloc_blocks_aligned). Every C string handed out (typed reads, pdb and PGO names) is non-empty, ends with a NUL and contains no other - the invariant CStr::from_bytes_unchecked asks for (C01_c_str_invariant); the unchecked accesses that hand out no borrow and are marked with a UB fault in the models - the header copy of to_view / to_file, the probe of binary_search_by, the VS_FIXEDFILEINFO cast - are unreachable (C01_no_ub). Where a model decodes values (export tables) the statement is about the slicing step they were decoded from. No cast was found whose size / alignment precondition the models do not establish; GRPICONDIR / GRPICONDIRENTRY / Language (defined outside image.rs) take their sizes, alignments and offsets from gen/LayoutExtra.v (tools/gen_layout_extra.py), and every size, alignment and field offset of gen/Layout.v and gen/LayoutExtra.v is compared with what rustc reports (component 'layout'). Tied to /repo by re-running every component correspondence with the buffer placed flush against PROT_NONE guard pages (end and start side, all alignment classes the generators choose) in a debug build with std's UB checks (misaligned pointer dereference, from_raw_parts / get_unchecked preconditions abort the process), by placement assertions on every returned reference, slice and string (inside the buffer or an empty/static constant, aligned for its type), and by a walker over the whole public API on the shipped PE files and their corruptions. CHECKED TWINS (Model/Checked.v): every raw reference the first-phase models handed out without a check is ref_chk (Fault UBOob outside the buffer, Fault UBAlign when misaligned for its type) in a twin that provably equals the model: the &IMAGE_BASE_RELOCATION and &[u16] of IterBlocks::peek on the directory of any file or mapped view (C01_reloc_refs_checked) and on any slice given to BaseRelocs::parse (C01_reloc_parse_checked; C01_reloc_refs_need_alignment: without the Misaligned test the first dereference is misaligned), the DOS / NT header casts of validate_headers (C01_header_refs_checked), the dword view of rich_structure()/check_sum (C01_dword_view_checked) and the casts of the typed read family relative to the byte slice they come from (C01_typed_refs_checked).",
+    claim="Machine-checked proof over the executable models, in which every accessor returns the REGION of the borrow it hands out: after the validation gate every unchecked header accessor returns a region inside the buffer and aligned for its struct type, with sizes and alignments regenerated from src/image.rs on every run (C01_header_accessors_32/64); for any (rva | va, min_size) and any power-of-two align (the documented precondition of AlignTo; C01_alignment_test_is_mask ties the code's mask test to the divisibility test of the models) a slice returned by a file or mapped view lies inside the buffer, has at least min_size bytes and starts at an address that is a multiple of align (C01_slice, C01_read); every typed read on both paths (derva/deref, _copy/_into, _slice, _slice_f/_s, _c_str) returns a region inside the buffer, aligned for the element type, of exactly the stated size (C01_typed_reads); the dword view used by check_sum and rich_structure is aligned and inside (C01_dword_view); relocation blocks lie inside the directory (C01_reloc_blocks); the resource entry array handed out by from_raw_parts lies inside the section and is aligned (C01_resource_entries); UNWIND_INFO with its code array lies inside the slice it was read from (C01_unwind_info). The directory modules are covered accessor by accessor (Spec/SafetyDirsSpec.v, Proofs/SafetyDirsProofs.v), each borrow inside the buffer and at an address that is a multiple of the alignment of the Rust type it is cast to (gen/Layout.v): the IMAGE_EXPORT_DIRECTORY, the three By tables (static empty slice or a derva_slice region aligned for Rva / u16) and every name string (C01_exports_regions); the import descriptor array and each descriptor, dll names, the IAT / INT thunk arrays and each thunk (Va: 4 in PE32, 8 in PE32+), by-name import names, the IAT directory (C01_imports_regions); the RUNTIME_FUNCTION table and each record, function bytes, UNWIND_INFO with the UNWIND_CODE array from_raw_parts builds behind it (C01_exception_regions); the certificate with its 8 header bytes and the get_unchecked(8..) payload (C01_security_region); the IMAGE_DEBUG_DIRECTORY array and each Dir, Dir::data, the CodeView PDB20 / PDB70, IMAGE_DEBUG_MISC and PGO dword-slice casts, pdb_file_name and every PgoIter name (C01_debug_regions); IMAGE_TLS_DIRECTORY32/64, raw data, slot, callbacks (C01_tls_regions); IMAGE_LOAD_CONFIG_DIRECTORY32/64, cookie, SE handler table (C01_load_config_regions); Resources::slice / slice_ws, Directory::try_from with the entry arrays of entries() / named_entries() / id_entries() and each entry, wide names, sub-directories and data entries, DataEntry::bytes, the find.rs queries, version_info() bytes, GroupResource::new with its entry array and the icon / cursor listings, and the section itself as a borrow of a file or mapped view (C01_resources_regions, C01_resource_groups, C01_resources_in_view; C01_resource_entries kept); the u16 view of a version resource, key / value / children of every block, the VS_FIXEDFILEINFO cast - whose misaligned case is unreachable - and Language::from_slice (C01_version_info_regions); the dos stub, Rich image and record words on the dword view (C01_rich_region); the relocation directory and the 4-byte alignment of every block header IterBlocks dereferences (C01_relocs_region, C01_reloc_blocks_aligned). Every C string handed out (typed reads, pdb and PGO names) is non-empty, ends with a NUL and contains no other - the invariant CStr::from_bytes_unchecked asks for (C01_c_str_invariant); the unchecked accesses that hand out no borrow and are marked with a UB fault in the models - the header copy of to_view / to_file, the probe of binary_search_by, the VS_FIXEDFILEINFO cast - are unreachable (C01_no_ub). Where a model decodes values (export tables) the statement is about the slicing step they were decoded from. No cast was found whose size / alignment precondition the models do not establish; GRPICONDIR / GRPICONDIRENTRY / Language (defined outside image.rs) take their sizes, alignments and offsets from gen/LayoutExtra.v (tools/gen_layout_extra.py), and every size, alignment and field offset of gen/Layout.v and gen/LayoutExtra.v is compared with what rustc reports (component 'layout'). Tied to /repo by re-running every component correspondence with the buffer placed flush against PROT_NONE guard pages (end and start side, all alignment classes the generators choose) in a debug build with std's UB checks (misaligned pointer dereference, from_raw_parts / get_unchecked preconditions abort the process), by placement assertions on every returned reference, slice and string (inside the buffer or an empty/static constant, aligned for its type), and by a walker over the whole public API on the shipped PE files and their corruptions. CHECKED TWINS (Model/Checked.v): every raw reference the first-phase models handed out without a check is ref_chk (Fault UBOob outside the buffer, Fault UBAlign when misaligned for its type) in a twin that provably equals the model: the &IMAGE_BASE_RELOCATION and &[u16] of IterBlocks::peek on the directory of any file or mapped view (C01_reloc_refs_checked) and on any slice given to BaseRelocs::parse (C01_reloc_parse_checked; C01_reloc_refs_need_alignment: without the Misaligned test the first dereference is misaligned), the DOS / NT header casts of validate_headers (C01_header_refs_checked), the dword view of rich_structure()/check_sum (C01_dword_view_checked) and the casts of the typed read family relative to the byte slice they come from (C01_typed_refs_checked). The utility layer (component `util`, Model/Util.v; docs/notes-UTIL.md): WideStr::from_words hands out the prefix of first word + 1 words and establishes the invariant from_words_unchecked asks for (C01_util_from_words_region); <WideStr as FromBytes>::from_bytes stays inside the byte slice and aligned under exactly the guarantees derva_string / deref_string give it (MIN_SIZE_OF = 2, ALIGN_OF = 2) and is undefined behaviour exactly outside them (C01_util_from_bytes_region, C01_util_from_bytes_faults_iff); Deref / AsRef (get_unchecked(1..)) is in bounds after every constructor and out of bounds only on the empty slice no constructor produces (C01_util_as_ref_after_constructors, C01_util_as_ref_faults_iff); WideStr::from_str - dead, unexported code - keeps the invariant only when the string fills the buffer (C01_util_from_str_invariant_iff); strn / wstrn / trimn return prefixes of their buffer (C01_util_strn_trimn_regions).",
     note="Partial by nature: a Coq model cannot exhibit what the hardware does with a bad pointer; that part is observed (SIGSEGV on guard pages, UB-check aborts). Formatters and serializers other than the loops modelled are exercised by the walker only. Trusted: Coq kernel, extraction and glue, mmap/mprotect placement in harness/src/lib.rs. tools/gen_layout.py and gen_layout_extra.py are no longer trusted for the numbers: the 'layout' component asks rustc for size_of / align_of / offset_of of every struct and field of coq/gen/Layout.v and LayoutExtra.v and the check fails on any difference.",
     extract=[],
     modes=[("guard-end", {"PVH_GUARD": "end"}), ("guard-start", {"PVH_GUARD": "start"})],
